@@ -5,7 +5,15 @@
 //   solve_gmres      side M maxiter tol abstol ns                       A PREC f x0
 //   solve_fgmres     M maxiter tol abstol ns                            A PREC f x0
 //   solve_lgmres     side M K always_reset maxiter tol abstol ns        A PREC f x0
-//   hist_gmres | hist_fgmres | hist_lgmres   <params as above>  n k (A PREC f x0)^k            (ONE solver object)
+//   solve_idrs       s omega smoothing replacement maxiter tol abstol ns   A PREC f x0  RAW
+//   solve_bicgstabl  side L delta convex maxiter tol abstol ns          A PREC f x0
+//   hist_gmres | hist_fgmres | hist_lgmres | hist_bicgstabl   <params as above>  n k (A PREC f x0)^k   (ONE solver object)
+//   hist_idrs        <params as above>  n k RAW (A PREC f x0)^k
+// RAW = the s random vectors the constructor of idrs draws (mt19937(pid*nt+tid), uniform(-1,1)) before it
+//   orthonormalises them into the shadow space P.  They are an INPUT of the Lean model.  The harness runs with ONE
+//   OpenMP thread; if RAW equals the stream of mt19937(0) the real object is used untouched (tag P_native), otherwise
+//   the harness overwrites the object's private P with RAW and repeats the constructor's orthonormalisation
+//   statements on it (tag P_injected) - the solve itself is always the real operator().
 // PREC = id | diag <vec> | mat <CRS>; result "ok <iters> <res> <x>" or "precondition <x>"; hist_*: joined by " | ".
 // M >= 1 (L >= 1, s >= 1) is required: bad-input otherwise.
 //
@@ -21,7 +29,13 @@
 #include <amgcl/solver/gmres.hpp>
 #include <amgcl/solver/fgmres.hpp>
 #include <amgcl/solver/lgmres.hpp>
+#include <amgcl/solver/idrs.hpp>
+#include <amgcl/solver/bicgstabl.hpp>
 #include <tuple>
+#include <random>
+#ifdef _OPENMP
+#include <omp.h>
+#endif
 using namespace vh;
 using namespace vsolv;
 
@@ -35,18 +49,33 @@ static const bool O_C15 = VH_PROP == 0 || VH_PROP == 15;
 typedef amgcl::solver::gmres<Backend>  GMRES;
 typedef amgcl::solver::fgmres<Backend> FGMRES;
 typedef amgcl::solver::lgmres<Backend> LGMRES;
+typedef amgcl::solver::idrs<Backend>   IDRS;
+typedef amgcl::solver::bicgstabl<Backend> BICGSTABL;
 
-enum { S_GMRES = 0, S_FGMRES = 1, S_LGMRES = 2 };
-struct Prm { int solver = 0; bool left = false; long M = 1, K = 0, maxiter = 0; Q tol, abstol; bool always_reset = true, ns = false; };
+// read/write access to the private member idrs::P (explicit-instantiation idiom; no change to /repo)
+typedef std::vector<std::shared_ptr<Backend::vector>> VecList;
+template <typename Tag, typename Tag::type M> struct Rob { friend typename Tag::type get(Tag) { return M; } };
+struct IdrsP { typedef VecList IDRS::*type; friend type get(IdrsP); };
+template struct Rob<IdrsP, &IDRS::P>;
+
+enum { S_GMRES = 0, S_FGMRES = 1, S_LGMRES = 2, S_IDRS = 3, S_BICGSTABL = 4 };
+struct Prm { int solver = 0; bool left = false; long M = 1, K = 0, maxiter = 0; Q tol, abstol; bool always_reset = true, ns = false;
+             long s = 1; Q omega; bool smoothing = false, replacement = false;          // idrs
+             long L = 1; Q delta; bool convex = true;                                      // bicgstabl
+             std::vector<std::vector<Q>> raw; };                                           // idrs: the random vectors
 
 static bool parse_side(Cur &c) { const std::string &s = c.tok(); if (s == "left") return true; if (s == "right") return false; throw bad_input("side"); }
 static Prm parse_prm(int solver, Cur &c) {
     Prm p; p.solver = solver;
-    if (solver == S_GMRES || solver == S_LGMRES) p.left = parse_side(c);
-    p.M = parse_nat(c);
-    if (solver == S_LGMRES) { p.K = parse_nat(c); p.always_reset = parse_bool(c); }
+    if (solver == S_IDRS) { p.s = parse_nat(c); p.omega = c.rat(); p.smoothing = parse_bool(c); p.replacement = parse_bool(c); }
+    else if (solver == S_BICGSTABL) { p.left = parse_side(c); p.L = parse_nat(c); p.delta = c.rat(); p.convex = parse_bool(c); }
+    else {
+        if (solver == S_GMRES || solver == S_LGMRES) p.left = parse_side(c);
+        p.M = parse_nat(c);
+        if (solver == S_LGMRES) { p.K = parse_nat(c); p.always_reset = parse_bool(c); }
+    }
     p.maxiter = parse_nat(c); p.tol = c.rat(); p.abstol = c.rat(); p.ns = parse_bool(c);
-    if (p.M < 1) throw bad_input("M");
+    if (p.M < 1 || p.s < 1 || p.L < 1) throw bad_input("M/s/L");
     return p;
 }
 static amgcl::preconditioner::side::type side_of(const Prm &p) { return p.left ? amgcl::preconditioner::side::left : amgcl::preconditioner::side::right; }
@@ -54,9 +83,44 @@ static GMRES::params gm_prm(const Prm &p) { GMRES::params q; q.M = p.M; q.pside 
 static FGMRES::params fg_prm(const Prm &p) { FGMRES::params q; q.M = p.M; q.maxiter = p.maxiter; q.tol = p.tol; q.abstol = p.abstol; q.ns_search = p.ns; q.verbose = false; return q; }
 static LGMRES::params lg_prm(const Prm &p) { LGMRES::params q; q.M = p.M; q.K = p.K; q.always_reset = p.always_reset; q.pside = side_of(p); q.maxiter = p.maxiter; q.tol = p.tol; q.abstol = p.abstol; q.ns_search = p.ns; q.verbose = false; return q; }
 
+static IDRS::params id_prm(const Prm &p) { IDRS::params q; q.s = p.s; q.omega = p.omega; q.smoothing = p.smoothing; q.replacement = p.replacement; q.maxiter = p.maxiter; q.tol = p.tol; q.abstol = p.abstol; q.ns_search = p.ns; q.verbose = false; return q; }
+static BICGSTABL::params bl_prm(const Prm &p) { BICGSTABL::params q; q.L = (int)p.L; q.delta = p.delta; q.convex = p.convex; q.pside = side_of(p); q.maxiter = p.maxiter; q.tol = p.tol; q.abstol = p.abstol; q.ns_search = p.ns; q.verbose = false; return q; }
+
+// the stream the constructor of idrs draws with one thread on rank 0: std::mt19937 rng(0), uniform(-1, 1), j outer, i inner
+static std::vector<std::vector<Q>> native_raw(long n, long s) {
+    std::mt19937 rng(0); std::uniform_real_distribution<Q> rnd(-1, 1);
+    std::vector<std::vector<Q>> raw(s, std::vector<Q>(n));
+    for (long j = 0; j < s; ++j) for (long i = 0; i < n; ++i) raw[j][i] = rnd(rng);
+    return raw;
+}
+static bool same_raw(const std::vector<std::vector<Q>> &a, const std::vector<std::vector<Q>> &b) {
+    if (a.size() != b.size()) return false;
+    for (size_t j = 0; j < a.size(); ++j) { if (a[j].size() != b[j].size()) return false; for (size_t i = 0; i < a[j].size(); ++i) if (a[j][i].v != b[j][i].v) return false; }
+    return true;
+}
+// an idrs object whose shadow space comes from p.raw (see the header comment)
+static std::shared_ptr<IDRS> make_idrs(const Prm &p, long n, bool *native = 0) {
+    auto S = std::make_shared<IDRS>(n, id_prm(p));
+    bool nat = same_raw(p.raw, native_raw(n, p.s));
+    if (native) *native = nat;
+    if (!nat) {
+        VecList &P = (*S).*get(IdrsP());
+        amgcl::solver::detail::default_inner_product ipf;
+        for (long j = 0; j < p.s; ++j) for (long i = 0; i < n; ++i) (*P[j])[i] = p.raw[j][i];
+        for (long j = 0; j < p.s; ++j) {                      // idrs.hpp:205-216, verbatim
+            for (long k = 0; k < j; ++k) { Q alpha = ipf(*P[k], *P[j]); amgcl::backend::axpby(-alpha, *P[k], Q(1), *P[j]); }
+            Q norm_pj = std::abs(sqrt(ipf(*P[j], *P[j])));
+            amgcl::backend::axpby(amgcl::math::inverse(norm_pj), *P[j], Q(0), *P[j]);
+        }
+    }
+    return S;
+}
+
 // the private norm() of gmres / fgmres / lgmres / idrs: std::abs(sqrt(inner_product(x, x)))
 static Q nrmA(const std::vector<Q> &v) { return vq::abs(vq::sqrt(dot(v, v))); }
-static bool left_kind(const Prm &p) { return p.left && (p.solver == S_GMRES || p.solver == S_LGMRES); }
+static bool left_kind(const Prm &p) { return p.left && (p.solver == S_GMRES || p.solver == S_LGMRES || p.solver == S_BICGSTABL); }
+// the norm the solver uses: bicgstabl has sqrt(|<x,x>|), the others |sqrt(<x,x>)|
+static Q snorm(const Prm &p, const std::vector<Q> &v) { return p.solver == S_BICGSTABL ? nrm(v) : nrmA(v); }
 
 // ------------------------------------------------------------------ property oracles on ONE call's result
 // `fresh_semantics`: the object is known to behave like a fresh one for this call (false for LGMRES without
@@ -65,7 +129,7 @@ static void oracle(const Prm &p, const CallData &d, const Out &o, Result &r, boo
     const long n = d.n();
     if (O_C15 && !o.inputs_untouched) r.fail("rhs or system matrix modified by the solve");
     Dense A = dense(d.A), PD = d.pdense();
-    Q nf = nrmA(d.f), eps = mach_eps();
+    Q nf = snorm(p, d.f), eps = mach_eps();
     bool tiny = nf < eps;
     if (tiny) r.tag(dot(d.f, d.f) == 0 ? "zero_rhs" : "tiny_rhs");
     if (tiny && !p.ns) {
@@ -75,24 +139,44 @@ static void oracle(const Prm &p, const CallData &d, const Out &o, Result &r, boo
         return;
     }
     if (tiny) { nf = Q(1); r.tag("ns_search"); }
-    if (o.thrown) { r.tag("precondition"); r.fail("gmres / fgmres / lgmres have no preconditions"); return; }
+    if (o.thrown) { r.tag("precondition"); if (p.solver < S_IDRS) r.fail("gmres / fgmres / lgmres have no preconditions"); return; }
     Q epsT = std::max(p.tol * nf, p.abstol);
-    if (O_C01 && o.it > p.maxiter) r.fail("iters > maxiter");
+    if (O_C01 && p.solver != S_BICGSTABL && o.it > p.maxiter) r.fail("iters > maxiter");
+    if (O_C01 && p.solver == S_BICGSTABL && o.it > p.maxiter + p.L - 1) r.fail("bicgstabl: iters > maxiter + L - 1");
+    if (p.solver == S_BICGSTABL && o.it > p.maxiter) r.tag("iters_above_maxiter");
     std::vector<Q> tr = resid(A, d.f, o.x);
     std::vector<Q> trp = left_kind(p) ? dmv(PD, tr) : tr;
-    Q truth = nrmA(trp) / nf;
+    Q truth = snorm(p, trp) / nf;
     if (O_C01 && o.res.v != truth.v) r.fail("reported residual != recomputed true residual of the returned x");
     // C15: converged guess
     std::vector<Q> r0 = resid(A, d.f, d.x0), r0p = left_kind(p) ? dmv(PD, r0) : r0;
-    Q res0 = nrmA(r0p);
-    bool conv0 = res0 < epsT;
+    Q res0 = snorm(p, r0p);
+    // the entry test: gmres family `norm_r < eps`, idrs `res_norm <= eps`, bicgstabl loop guard `zeta >= eps`
+    bool conv0 = p.solver == S_IDRS ? !(res0 > epsT) : res0 < epsT;
     if (conv0) {
         r.tag("conv_guess");
         if (O_C15 && o.it != 0) r.fail("converged initial guess: iterations were made");
         if (O_C15) for (long i = 0; i < n; ++i) if (o.x[i].v != d.x0[i].v) { r.fail("converged initial guess modified"); break; }
     }
-    if (o.it == p.maxiter && !(nrmA(trp) < epsT)) r.tag("maxiter_hit"); else if (o.it > 0) r.tag("converged");
-    if (!conv0 && p.maxiter > 0 && O_C01 && o.it == 0) r.fail("no iteration made although not converged and maxiter > 0");
+    if (o.it >= p.maxiter && !(snorm(p, trp) < epsT)) r.tag("maxiter_hit"); else if (o.it > 0) r.tag("converged");
+    // (idrs does not count the step in which it converges: `if (res_norm <= eps || ++iter >= maxiter) break;`)
+    if (!conv0 && p.maxiter > 0 && O_C01 && o.it == 0 && p.solver != S_IDRS) r.fail("no iteration made although not converged and maxiter > 0");
+    if (p.solver >= S_IDRS) {
+        // C05: exact preconditioner -> the exact solution after the first (half) step.  idrs: the first k-step gives
+        // beta = 1, r = 0 and leaves through `res_norm <= eps` WITHOUT counting the step (it == 0); bicgstabl: alpha = 1,
+        // zeta = 0 < eps in the first BiCG step (it == 1).  (A zero <r0,P0> resp. <B,B> throws and was handled above.)
+        bool exactP = n > 0 && is_identity(dmul(PD, A));
+        if (exactP) {
+            r.tag("exact_prec");
+            bool applies = fresh_semantics && p.maxiter >= 1 && !conv0 && (p.solver == S_IDRS ? epsT >= 0 : epsT > 0);
+            if (applies && O_C05) {
+                if (o.it != (p.solver == S_IDRS ? 0 : 1)) r.fail("exact preconditioner: unexpected iteration count");
+                for (long i = 0; i < n; ++i) if (tr[i] != 0) { r.fail("exact preconditioner: A x != f after the first step"); break; }
+                r.tag("exact_prec_one_step");
+            }
+        }
+        return;
+    }
     long MM = p.solver == S_LGMRES ? p.M + p.K : p.M;
     if (o.it > MM) r.tag("restarted");
     // C05: the iterate lies in the right affine space: x - x0 in P K_k(AP, r0) (right) / K_k(PA, P r0) (left), k = iters
@@ -121,13 +205,15 @@ static void oracle(const Prm &p, const CallData &d, const Out &o, Result &r, boo
     }
 }
 
-static const char *solver_name(int s) { return s == S_GMRES ? "gmres" : s == S_FGMRES ? "fgmres" : "lgmres"; }
+static const char *solver_name(int s) { return s == S_GMRES ? "gmres" : s == S_FGMRES ? "fgmres" : s == S_LGMRES ? "lgmres" : s == S_IDRS ? "idrs" : "bicgstabl"; }
 
 static Out run_fresh(const Prm &p, const CallData &d) {
     switch (p.solver) {
         case S_GMRES:  { GMRES S(d.n(), gm_prm(p)); return call(S, d); }
         case S_FGMRES: { FGMRES S(d.n(), fg_prm(p)); return call(S, d); }
-        default:       { LGMRES S(d.n(), lg_prm(p)); return call(S, d); }
+        case S_LGMRES: { LGMRES S(d.n(), lg_prm(p)); return call(S, d); }
+        case S_IDRS:   { auto S = make_idrs(p, d.n()); return call(*S, d); }
+        default:       { BICGSTABL S(d.n(), bl_prm(p)); return call(S, d); }
     }
 }
 
@@ -162,36 +248,60 @@ static Result execute(const Toks &t) {
     Result r;
     int solver = -1; bool hist = false;
     if (op == "solve_gmres") solver = S_GMRES; else if (op == "solve_fgmres") solver = S_FGMRES; else if (op == "solve_lgmres") solver = S_LGMRES;
+    else if (op == "solve_idrs") solver = S_IDRS; else if (op == "solve_bicgstabl") solver = S_BICGSTABL;
     else if (op == "hist_gmres") { solver = S_GMRES; hist = true; } else if (op == "hist_fgmres") { solver = S_FGMRES; hist = true; } else if (op == "hist_lgmres") { solver = S_LGMRES; hist = true; }
+    else if (op == "hist_idrs") { solver = S_IDRS; hist = true; } else if (op == "hist_bicgstabl") { solver = S_BICGSTABL; hist = true; }
     else { r.out = "bad-op"; return r; }
+#ifdef _OPENMP
+    if (omp_get_max_threads() != 1) { r.out = "harness-needs-OMP_NUM_THREADS=1"; r.fail("the idrs constructor seeds its generator per thread: run with one thread"); return r; }
+#endif
     Prm p = parse_prm(solver, c);
     if (!hist) {
-        CallData d = parse_call(c); c.expect_end(); validate(d);
+        CallData d = parse_call(c);
+        if (solver == S_IDRS) { for (long j = 0; j < p.s; ++j) { p.raw.push_back(c.vec()); if ((long)p.raw.back().size() != d.n()) throw bad_input("raw"); } }
+        c.expect_end(); validate(d);
+        if (solver == S_IDRS) { bool nat = same_raw(p.raw, native_raw(d.n(), p.s)); r.tag(nat ? "P_native" : "P_injected"); r.tag("s" + std::to_string(p.s)); if (p.smoothing) r.tag("smoothing"); if (p.replacement) r.tag("replacement"); }
+        if (solver == S_BICGSTABL) { r.tag("L" + std::to_string(p.L)); if (p.convex) r.tag("convex"); if (p.delta > 0) r.tag("delta"); }
         Out o = run_fresh(p, d);
         oracle(p, d, o, r, true);
         r.out = show(o);
         r.nontrivial = !o.thrown && o.it >= 2;
-        r.tag(solver_name(solver)); if (solver != S_FGMRES) r.tag(p.left ? "left" : "right");
-        r.tag("M" + std::to_string(p.M)); if (solver == S_LGMRES) r.tag("K" + std::to_string(p.K));
+        r.tag(solver_name(solver)); if (solver != S_FGMRES && solver != S_IDRS) r.tag(p.left ? "left" : "right");
+        if (solver < S_IDRS) r.tag("M" + std::to_string(p.M)); if (solver == S_LGMRES) r.tag("K" + std::to_string(p.K));
         if (!o.thrown) r.tag("it" + std::to_string(o.it));
         r.tag(d.pk == 0 ? "prec_id" : d.pk == 1 ? "prec_diag" : "prec_mat");
         r.tag(is_symmetric(d.A) ? "sym" : "nonsym");
         bool x0nz = false; for (auto &v : d.x0) if (v != 0) x0nz = true; if (x0nz) r.tag("x0_nonzero");
     } else {
         long n = parse_nat(c), k = parse_nat(c);
+        if (solver == S_IDRS) { for (long j = 0; j < p.s; ++j) { p.raw.push_back(c.vec()); if ((long)p.raw.back().size() != n) throw bad_input("raw"); } }
         std::vector<CallData> cs;
         for (long i = 0; i < k; ++i) cs.push_back(parse_call(c));
         c.expect_end();
         for (auto &d : cs) { validate(d); if (d.n() != n) throw bad_input("n"); }
         if (solver == S_GMRES) { GMRES S(n, gm_prm(p)); run_history(S, p, cs, r); }
         else if (solver == S_FGMRES) { FGMRES S(n, fg_prm(p)); run_history(S, p, cs, r); }
-        else { LGMRES S(n, lg_prm(p)); run_history(S, p, cs, r); }
+        else if (solver == S_LGMRES) { LGMRES S(n, lg_prm(p)); run_history(S, p, cs, r); }
+        else if (solver == S_IDRS) { bool nat; auto S = make_idrs(p, n, &nat); run_history(*S, p, cs, r); r.tag(nat ? "P_native" : "P_injected"); }
+        else { BICGSTABL S(n, bl_prm(p)); run_history(S, p, cs, r); }
     }
     return r;
 }
 
 // ------------------------------------------------------------------ generators
 static void put_prm(Rng &rng, Line &l, int solver, long maxit_hi) {
+    if (solver == S_IDRS) {
+        static const std::vector<Q> om = { Q(0), Q::frac(7, 10), Q::frac(7, 10), Q::frac(1, 2), Q::frac(9, 10), Q(2) };
+        l << rng.range(1, 3) << rng.pick(om) << rng.coin(1, 3) << rng.coin(1, 3);
+        l << rng.range(0, maxit_hi) << gen_tol(rng) << gen_abstol(rng) << rng.coin(1, 6);
+        return;
+    }
+    if (solver == S_BICGSTABL) {
+        static const std::vector<Q> dl = { Q(0), Q(0), Q(0), Q::frac(1, 100), Q::frac(1, 2), Q(1), Q(5) };
+        l << (rng.coin() ? "left" : "right") << rng.range(1, 3) << rng.pick(dl) << rng.coin();
+        l << rng.range(0, maxit_hi) << gen_tol(rng) << gen_abstol(rng) << rng.coin(1, 6);
+        return;
+    }
     if (solver == S_GMRES || solver == S_LGMRES) l << (rng.coin() ? "left" : "right");
     if (solver == S_LGMRES) { long K = rng.range(0, 2); l << rng.range(1, 3 - (K > 1 ? 1 : 0)) << K << rng.coin(); }
     else l << rng.range(1, 4);
@@ -222,8 +332,20 @@ static void put_call2(Rng &rng, Line &l, long n) {
     l << f << gen_x0(rng, A, f);
 }
 
+// the s raw vectors of an idrs object of size n: the native stream, or small rationals (also degenerate ones)
+static void put_raw(Rng &rng, Line &l, long n, long s) {
+    int k = (int)rng.range(0, 9);
+    if (k < 3) { auto raw = native_raw(n, s); for (auto &v : raw) l << v; return; }
+    for (long j = 0; j < s; ++j) {
+        std::vector<Q> v = gen_vec(rng, n, rng.coin());
+        if (k == 9 && j == s - 1) v = std::vector<Q>(n, Q(0));          // a zero shadow vector -> zero pivot
+        l << v;
+    }
+}
+static long prm_s(const std::string &prm_line) { return atol(split(prm_line)[0].c_str()); }
+
 static void generate(Rng &rng, const Opts &o, std::vector<std::string> &lines) {
-    long N = o.cases > 0 ? o.cases : (o.thorough() ? 2500 : 260);
+    long N = o.cases > 0 ? o.cases : (o.thorough() ? 3000 : 420);
     // fixed edge cases: 1x1, n = 0, zero matrix, maxiter 0, restart with M = 1, identity matrix (breakdown-like H(1,0) = 0)
     lines.push_back("solve_gmres right 2 3 0 0 0 2 2 0 0 id 2 1 2 2 0 0");
     lines.push_back("solve_gmres left 2 3 0 0 0 2 2 0 0 id 2 1 2 2 0 0");
@@ -239,7 +361,22 @@ static void generate(Rng &rng, const Opts &o, std::vector<std::string> &lines) {
     lines.push_back("solve_lgmres left 1 2 0 4 0 0 0 2 2 2 0 2 1 1 2 0 1 1 3 diag 2 1/2 1/3 2 1 3 2 1 1");
     lines.push_back("solve_lgmres right 2 0 1 3 0 0 0 2 2 0 0 id 2 1 2 2 0 0");
     lines.push_back("hist_lgmres right 1 2 0 3 0 0 0 2 2 2 2 0 2 1 1 2 0 1 1 3 id 2 1 3 2 0 0 2 2 2 0 2 1 1 2 0 1 1 3 id 2 1 3 2 0 0");
+    lines.push_back("solve_idrs 1 7/10 0 0 4 0 0 0 2 2 2 0 2 1 1 2 0 1 1 3 id 2 1 3 2 0 0 2 1 0");
+    lines.push_back("solve_idrs 2 7/10 1 1 5 1/1000 0 0 2 2 2 0 2 1 1 2 0 1 1 3 diag 2 1/2 1/3 2 1 3 2 1 1 2 1 0 2 1 1");
+    lines.push_back("solve_idrs 2 0 0 0 3 0 0 0 2 2 2 0 2 1 1 2 0 1 1 3 id 2 1 3 2 0 0 2 1 0 2 0 0");       // zero shadow vector: zero pivot
+    lines.push_back("solve_idrs 1 7/10 0 0 3 0 0 0 2 2 0 0 id 2 1 2 2 0 0 2 1 1");                            // zero matrix
+    lines.push_back("solve_idrs 1 7/10 0 0 3 0 0 0 0 0 id 0 0 0");                                            // n = 0
+    lines.push_back("solve_bicgstabl right 1 0 1 4 0 0 0 2 2 2 0 2 1 1 2 0 1 1 3 id 2 1 3 2 0 0");
+    lines.push_back("solve_bicgstabl left 2 0 0 4 1/1000 0 0 2 2 2 0 2 1 1 2 0 1 1 3 diag 2 1/2 1/3 2 1 3 2 1 1");
+    lines.push_back("solve_bicgstabl right 2 1/2 0 6 0 0 0 3 3 2 0 2 1 1 3 0 1 1 3 2 1 2 1 1 2 4 id 3 1 3 2 3 0 0 0");
+    lines.push_back("solve_bicgstabl right 3 0 0 3 0 0 0 2 2 0 0 id 2 1 2 2 0 0");                             // zero matrix: zero sigma
+    lines.push_back("solve_bicgstabl left 2 0 1 3 0 0 0 0 0 id 0 0");                                          // n = 0
     // malformed stream
+    lines.push_back("solve_idrs 0 7/10 0 0 3 0 0 0 2 2 1 0 1 1 1 1 id 2 1 2 2 0 0");                          // s = 0
+    lines.push_back("solve_idrs 1 7/10 0 0 3 0 0 0 2 2 1 0 1 1 1 1 id 2 1 2 2 0 0 3 1 1 1");                  // raw vector of wrong size
+    lines.push_back("solve_idrs 2 7/10 0 0 3 0 0 0 2 2 1 0 1 1 1 1 id 2 1 2 2 0 0 2 1 1");                    // raw vector missing
+    lines.push_back("solve_bicgstabl right 0 0 1 3 0 0 0 2 2 1 0 1 1 1 1 id 2 1 2 2 0 0");                    // L = 0
+    lines.push_back("solve_bicgstabl right 1 0 2 3 0 0 0 2 2 1 0 1 1 1 1 id 2 1 2 2 0 0");                    // convex not a boolean
     lines.push_back("solve_gmres right 0 3 0 0 0 2 2 1 0 1 1 1 1 id 2 1 2 2 0 0");              // M = 0
     lines.push_back("solve_fgmres 0 3 0 0 0 2 2 1 0 1 1 1 1 id 2 1 2 2 0 0");                    // M = 0
     lines.push_back("solve_lgmres right 0 1 1 3 0 0 0 2 2 1 0 1 1 1 1 id 2 1 2 2 0 0");          // M = 0
@@ -255,16 +392,27 @@ static void generate(Rng &rng, const Opts &o, std::vector<std::string> &lines) {
     const long nmax = o.thorough() ? 8 : 6;
     for (long k = 0; k < N; ++k) {
         Line l;
-        int which = (int)rng.range(0, 19);
+        int which = (int)rng.range(0, 31);
         long n = rng.range(1, nmax);
         if (rng.coin(1, 40)) n = 0;
-        if (which < 6) { l << "solve_gmres"; put_prm(rng, l, S_GMRES, 4); put_call2(rng, l, n); }
-        else if (which < 10) { l << "solve_fgmres"; put_prm(rng, l, S_FGMRES, 4); put_call2(rng, l, n); }
-        else if (which < 14) { l << "solve_lgmres"; put_prm(rng, l, S_LGMRES, 4); put_call2(rng, l, n); }
+        if (which < 5) { l << "solve_gmres"; put_prm(rng, l, S_GMRES, 4); put_call2(rng, l, n); }
+        else if (which < 8) { l << "solve_fgmres"; put_prm(rng, l, S_FGMRES, 4); put_call2(rng, l, n); }
+        else if (which < 12) { l << "solve_lgmres"; put_prm(rng, l, S_LGMRES, 4); put_call2(rng, l, n); }
+        else if (which < 17) {
+            l << "solve_idrs"; Line pl; put_prm(rng, pl, S_IDRS, 6); l << pl.get();
+            Line cl; put_call2(rng, cl, n); l << cl.get();
+            long nn = atol(split(cl.get())[0].c_str());
+            put_raw(rng, l, nn, prm_s(pl.get()));
+        }
+        else if (which < 22) { l << "solve_bicgstabl"; put_prm(rng, l, S_BICGSTABL, 6); put_call2(rng, l, n); }
         else {
-            int solver = which < 16 ? S_GMRES : which < 17 ? S_FGMRES : S_LGMRES;
-            l << (solver == S_GMRES ? "hist_gmres" : solver == S_FGMRES ? "hist_fgmres" : "hist_lgmres");
-            put_prm(rng, l, solver, 3);
+            int solver = which < 24 ? S_GMRES : which < 25 ? S_FGMRES : which < 28 ? S_LGMRES : which < 30 ? S_IDRS : S_BICGSTABL;
+            l << (std::string("hist_") + solver_name(solver));
+            Line pl;
+            if (solver == S_LGMRES && rng.coin(2, 3)) {            // histories that exercise the carried augmentation vectors
+                pl << (rng.coin() ? "left" : "right") << rng.range(1, 2) << rng.range(1, 2) << rng.coin(1, 3) << rng.range(2, 4) << gen_tol(rng) << gen_abstol(rng) << 0L;
+            } else put_prm(rng, pl, solver, solver >= S_IDRS ? 4 : 3);
+            l << pl.get();
             long len = rng.range(2, o.thorough() ? 5 : 3);
             n = rng.range(1, 4);
             std::vector<std::string> calls;
@@ -274,7 +422,9 @@ static void generate(Rng &rng, const Opts &o, std::vector<std::string> &lines) {
                 c << A; put_prec(rng, c, A); std::vector<Q> f = gen_rhs(rng, n, kind); c << f << gen_x0(rng, A, f);
                 calls.push_back(c.get()); ++j;
             }
-            l << n << len; for (auto &s : calls) l << s;
+            l << n << len;
+            if (solver == S_IDRS) put_raw(rng, l, n, prm_s(pl.get()));
+            for (auto &s : calls) l << s;
         }
         lines.push_back(l.get());
     }
